@@ -769,4 +769,47 @@ theorem mayLostFrom_abs (m : BufMap) (hwf : WF m) (j a b : Nat) (hb : b ≤ m.si
       simp only [setRange, h1]
       split <;> rfl
 
+/-! ### towards `may_loss` -/
+
+/-- `binary_search` position on a sorted run list: the runs before it start below `a`, the others at or above -/
+theorem lowerBound_spec (a : Nat) (l : List Run) (hs : Sorted l) :
+    lowerBound a l ≤ l.length ∧ (∀ r ∈ l.take (lowerBound a l), r.1 < a) ∧
+      (∀ r ∈ l.drop (lowerBound a l), a ≤ r.1) := by
+  induction l with
+  | nil => simp [lowerBound]
+  | cons r l ih =>
+    obtain ⟨o, c⟩ := r
+    obtain ⟨h1, h2⟩ := sorted_cons.mp hs
+    obtain ⟨i1, i2, i3⟩ := ih h2
+    simp only [lowerBound]
+    split
+    · rename_i hoa
+      refine ⟨by simp; omega, ?_, ?_⟩
+      · intro r hr
+        simp only [List.take_succ_cons, List.mem_cons] at hr
+        rcases hr with rfl | hr
+        · exact hoa
+        · exact i2 r hr
+      · intro r hr
+        simp only [List.drop_succ_cons] at hr
+        exact i3 r hr
+    · rename_i hoa
+      refine ⟨by simp, by simp, ?_⟩
+      intro r hr
+      simp only [List.drop_zero, List.mem_cons] at hr
+      rcases hr with rfl | hr
+      · show a ≤ o; omega
+      · have := h1 r hr
+        simp at this; omega
+
+-- OPEN: `mayLoss_refines` (the top-level theorem) is not proved.  What is missing:
+--   (1) the three branches of `mayLoss` that only call `mayLostFrom` (`Ok(idx)` on a `Recved` run, `Err(0)`,
+--       `Err(idx)` after a `Recved` run) follow from `mayLostFrom_abs` + `lowerBound_spec` (hypotheses `hP1 hP2 hR`
+--       from `lowerBound_spec`; `hnp` from "every run is non-empty, so a run `(o, c)` with `a ≤ o < b` has
+--       `m.abs o = c ≠ pending`"); the glue (`bsearch` unfolding, `lastCol (take (idx+1))`) is not written;
+--   (2) the `mayLossTail` branches (range starts inside/at a `Flighting` or `Lost` run): needs a characterisation of
+--       `lossScan` (same shape as `mlfScan_spec` without the recolouring), of `sameBefore`, of `splice`
+--       (`= .ok (l.take ds ++ insS.toList ++ insE.toList ++ l.drop de)`), then `mayLostFrom_spec` for the recursive
+--       call at a `Recved` run and a colour computation in the style of `colour_reduce`.
+
 end GmQuic.BufMap
